@@ -86,7 +86,12 @@ type c20Retire struct {
 	bound    time.Duration // what is left of reloadTotalSwitchBudget when it starts
 	live     int           // sessions of the old generation at that moment
 	waits    bool          // !abort && overlap && live > 0: the real drain wait is entered
-	finished bool
+	abort    bool
+	finished bool    // connections retired (retireControlPlaneConnections returned)
+	torn     bool    // the old generation's cancel func returned (Close follows at once)
+	req      *c20Req // the reload that replaced this generation
+	late     bool    // started only after the main loop had finished that reload (non-staged race)
+	orphaned bool    // that reload ended through finishReloadFailure, which does not wait
 }
 
 type c20Snap struct {
@@ -137,12 +142,13 @@ type c20Case struct {
 	mDone           chan struct{}
 	wg              sync.WaitGroup
 
-	retires    map[int]*c20Retire // by generation being retired (c.mu)
-	wedgeNote  string
-	stormGap   time.Duration // while draining: a signal every stormGap during a readiness wait
-	inWait     bool          // main loop is inside waitReloadReadyOrSignal
-	waitSigs   int           // signals delivered during the current readiness wait
-	sessSeq    int
+	retires   map[int]*c20Retire // by generation being retired (c.mu)
+	wedgeNote string
+	drainCfg  int
+	stormGap  time.Duration // while draining: a signal every stormGap during a readiness wait
+	inWait    bool          // main loop is inside waitReloadReadyOrSignal
+	waitSigs  int           // signals delivered during the current readiness wait
+	sessSeq   int
 
 	hmu        sync.Mutex
 	planeGen   map[*control.ControlPlane]int
@@ -218,9 +224,32 @@ func (c *c20Case) onBegin(who c20Caller) {
 	if c.owner != nil {
 		c.violate("request #%d accepted while request #%d is still in progress (%s, stage %s)", r.id, c.owner.id, c.owner.phase, c.owner.stage)
 	}
+	if g := c.retiringNow(nil); g != nil {
+		c.violate("request #%d accepted while generation %d (replaced by reload #%d, abort=%v) is still being cancelled and closed: the previous generation has not retired", r.id, g.gen, g.req.id, g.abort)
+	}
 	r.phase, r.stage = c20PhQueued, "queued"
 	c.owner = r
 	c.tracef("#%d accepted", r.id)
+}
+
+// retiringNow: a retirement the admission has to wait for that is not over yet
+// (of request r, or of any request if r is nil). Not counted: retirements started
+// only after the main loop had already finished the reload, and those of a reload
+// that ended through finishReloadFailure (both are observations in the report).
+func (c *c20Case) retiringNow(r *c20Req) *c20Retire { // c.mu held
+	var found *c20Retire
+	for _, info := range c.retires {
+		if info.torn || info.late || info.orphaned || info.req == nil {
+			continue
+		}
+		if r != nil && info.req != r {
+			continue
+		}
+		if found == nil || info.gen < found.gen {
+			found = info
+		}
+	}
+	return found
 }
 
 func (c *c20Case) onEnd(who c20Caller) {
@@ -251,7 +280,17 @@ func (c *c20Case) onEnd(who c20Caller) {
 	switch o.phase {
 	case c20PhQueued, c20PhActive:
 		c.violate("request #%d was released (pending cleared, muting ended) by %s while it is still in progress at stage %s", o.id, who.role, o.stage)
+	case c20PhFinishing:
+		for _, info := range c.retires {
+			if info.req == o && !info.torn {
+				info.orphaned = true
+				c.class("failure_released_while_old_generation_retiring")
+			}
+		}
 	case c20PhRetiring:
+		if g := c.retiringNow(o); g != nil {
+			c.violate("request #%d was released (pending cleared, muting ended) while generation %d, which it replaced, is still being cancelled and closed (abort=%v)", o.id, g.gen, g.abort)
+		}
 		if o.retireCh != nil {
 			select {
 			case <-o.retireCh:
@@ -533,7 +572,7 @@ func (c *c20Case) serveStage() {
 			c.hmu.Lock()
 			cur := c.plane
 			c.hmu.Unlock()
-			c.startRetirement(oldC, cur, handoff.oldCancel, handoff.abortConnections, handoff.hasOverlap)
+			c.startRetirement(r, oldC, cur, handoff.oldCancel, handoff.abortConnections, handoff.hasOverlap)
 		}
 	}
 	if reloadErr := m.reloadError(); reloadErr == nil {
@@ -574,7 +613,7 @@ func (c *c20Case) newPlane(withSession bool) *control.ControlPlane {
 
 // startRetirement records what the documented bound for this retirement is and
 // calls the real startControlPlaneRetirement.
-func (c *c20Case) startRetirement(oldC, successor *control.ControlPlane, oldCancel context.CancelFunc, abort, overlap bool) {
+func (c *c20Case) startRetirement(r *c20Req, oldC, successor *control.ControlPlane, oldCancel context.CancelFunc, abort, overlap bool) {
 	m := c.m
 	m.mu.Lock()
 	reqAt := m.pendingReloadRequestedAt
@@ -590,9 +629,13 @@ func (c *c20Case) startRetirement(oldC, successor *control.ControlPlane, oldCanc
 	g := c.planeGen[oldC]
 	c.hmu.Unlock()
 	live := oldC.ActiveSessionCount()
-	info := &c20Retire{gen: g, t0: time.Now(), bound: bound, live: live, waits: !abort && overlap && live > 0}
+	info := &c20Retire{gen: g, t0: time.Now(), bound: bound, live: live, waits: !abort && overlap && live > 0, abort: abort, req: r}
 	c.mu.Lock()
+	info.late = r == nil || r.phase != c20PhActive
 	c.retires[g] = info
+	if abort {
+		c.class("retire_with_abort")
+	}
 	switch {
 	case info.waits && bound == 0:
 		c.class("retire_live_session_budget_used_up")
@@ -655,6 +698,11 @@ func (c *c20Case) gatedCancel(cancel context.CancelFunc, plane *control.ControlP
 		}
 		// the old generation's teardown takes as long as the scheduler wants
 		c.sched.yield(fmt.Sprintf("G%03d:retire", g), c20Caller{role: "G"})
+		c.mu.Lock()
+		if info := c.retires[g]; info != nil {
+			info.torn = true
+		}
+		c.mu.Unlock()
 	}
 }
 
@@ -841,7 +889,7 @@ func (c *c20Case) workerOne(req reloadRequest, who c20Caller) {
 			c.class("nonstaged_finish_before_retirement_started")
 		}
 		c.mu.Unlock()
-		c.startRetirement(oldC, newC, oldCancel, abortConnections, hasOverlap)
+		c.startRetirement(r, oldC, newC, oldCancel, abortConnections, hasOverlap)
 	}
 	m.refreshPprofServer(c20Log, &c.pprof, 0)
 	notifyRunStateChange(c.runStateChanges)
@@ -977,7 +1025,7 @@ func (c *c20Case) busy() bool {
 
 var c20GateOutcomes = map[string][]int{
 	// config: bit0 fail, bit1 port changed (non-staged path), bit2 abort, bit3 dialer overlap
-	"W:1-config": {0, 8, 8, 8, 8, 8, 4, 12, 2, 10, 10, 10, 6, 1, 1},
+	"W:1-config": {0, 8, 8, 8, 8, 12, 12, 12, 4, 2, 10, 10, 14, 6, 1, 1},
 	// prepare/build: 0 ok, 1 fail, 2 hang; +4: the new generation has a live session
 	"W:2-prepare":  {0, 4, 4, 4, 4, 1, 2},
 	"W:2-build":    {0, 4, 4, 1, 2},
@@ -998,7 +1046,7 @@ func (c *c20Case) releaseStep(rt *rapid.T, p *c20Park, forceOK bool) {
 	if outs, ok := c20GateOutcomes[c20GateKey(p.label)]; ok && !forceOK {
 		out = rapid.SampledFrom(outs).Draw(rt, "outcome")
 	} else if p.label == "W:1-config" {
-		out = 8 // while draining: no failure, generations overlap (so live sessions are waited for)
+		out = c.drainCfg // while draining: no failure, generations overlap; abort as drawn
 	}
 	c.mu.Lock()
 	if p.who.role != "M" {
@@ -1137,6 +1185,7 @@ func c20RunProtocolCase(t *testing.T, rt *rapid.T, dir string) {
 func c20RunProtocolBubble(t *testing.T, rt *rapid.T, c *c20Case, nSteps int, failureP *string, wedgedP *bool) {
 	firstSession := rapid.Bool().Draw(rt, "firstSession")
 	c.stormGap = rapid.SampledFrom([]time.Duration{0, 10 * time.Second, 30 * time.Second, 44 * time.Second, reloadReadyTimeout - time.Nanosecond}).Draw(rt, "stormGap")
+	c.drainCfg = rapid.SampledFrom([]int{8, 8, 12}).Draw(rt, "drainCfg")
 	finalPause := rapid.SampledFrom([]time.Duration{0, 0, 3 * time.Second, 11 * time.Second, 11 * time.Second}).Draw(rt, "finalPause")
 	var failure string
 	var wedged bool
